@@ -636,7 +636,65 @@ LINES = ["0 = N 0 0", "0 = N 1 10", "0 = N 7 5", "0 = N 5 0", "0 = N 6 0", "96 =
          "Player2 = bass", 'Genre = "rock"']
 
 
+# ---- lines written from the statements of C07-C10 (grammar-based; the fixed corpus above stays in the mix)
+PAD = ["", "", "  ", " ", "\t", "   "]
+TICKS = ["0", "0", "5", "7", "96", "192", "00192", "768", "1536", "99999999"]     # at most 8 digits (the statement's practical bounds; beyond them timedelta overflows)
+WORDS = ["solo", "soloend", "2", "007", "x2", "\u00c4\u00d6", "a_b", "two words", "", "\u00b2", "ENABLE_CHART_DYNAMICS", "E", "N"]
+TEXTS = ["la", "Hel-", "Intro", "Verse 1", "Oh", "Wow", "  padded  ", 'say "hi"', '"', "na\u00efve \u00e9t\u00e9", "123", "", " ", "lyric x", "section y",
+         "phrase_start", "phrase_end", "idle", "a = b", "Offset = 5"]
+FIELDS = ["Name", "Artist", "Charter", "Album", "Year", "Offset", "Resolution", "Player2", "Difficulty", "PreviewStart", "PreviewEnd", "Genre",
+          "MediaType", "MusicStream", "GuitarStream", "RhythmStream", "BassStream", "DrumStream", "Drum2Stream", "Drum3Stream", "Drum4Stream",
+          "VocalStream", "KeysStream", "CrowdStream"]
+
+
+def gen_line(rnd, flavour=None, tick=None):
+    t = tick if tick is not None else rnd.choice(TICKS)
+    f = flavour or rnd.choice(["instrument", "sync", "events", "song", "junk"])
+    num = lambda: rnd.choice(["0", "1", "2", "4", "10", "96", "192", "0096", "1118", "120000", "60000", "99999999"])
+    if f == "instrument":
+        k = rnd.random()
+        if k < 0.45:
+            body = f"N {rnd.choice('0123456701234567089')} {num()}"
+        elif k < 0.65:
+            body = f"S {rnd.choice(['2', '2', '2', '64', '1'])} {num()}"
+        else:
+            body = f"E {rnd.choice(WORDS)}"
+    elif f == "sync":
+        k = rnd.random()
+        body = f"B {num()}" if k < 0.4 else (f"TS {num()}" if k < 0.6 else (f"TS {num()} {rnd.choice(['0', '1', '2', '3', '10'])}" if k < 0.8 else f"A {num()}"))
+    elif f == "events":
+        k = rnd.random()
+        x = rnd.choice(TEXTS)
+        body = 'E "' + (("lyric " + x) if k < 0.35 else (("section " + x) if k < 0.65 else (x if k < 0.9 else rnd.choice(["lyric" + x, "section" + x, "Lyric " + x])))) + '"'
+    elif f == "song":
+        fld = rnd.choice(FIELDS)
+        v = rnd.choice(TEXTS + ["0", "192", "480", "bass", "rhythm", "guitar", "rock"])
+        q = rnd.random()
+        line = f"{fld} = " + (f'"{v}"' if q < 0.6 else v)
+        return rnd.choice(PAD) + line + rnd.choice(PAD)
+    else:
+        return rnd.choice(["garbage", "", "{", "}", "[Song]", "0 = X 1", "= N 0 0", "0 = N", "0 N 0 0", "0 = E", '0 = E "', "0=N 0 0"])
+    return rnd.choice(PAD) + f"{t} = {body}" + rnd.choice(PAD)
+
+
+def gen_lines(rnd):
+    """the body of one section: one flavour (sometimes mixed), few distinct ticks (so that several lines of
+    one kind share a tick), mostly in non-decreasing tick order"""
+    f = rnd.choice(["instrument", "sync", "events", "events", "song", None])
+    n = rnd.choice([0, 1, 2, 3, 4, 6, 8])
+    pool = sorted(rnd.sample([0, 5, 7, 96, 192, 768, 1536], 3))
+    ticks = sorted(rnd.choice(pool) for _ in range(n)) if rnd.random() < 0.75 else [rnd.choice(pool) for _ in range(n)]
+    out = []
+    for tk in ticks:
+        out.append(rnd.choice(LINES) if rnd.random() < 0.1 else gen_line(rnd, f if rnd.random() < 0.9 else None, str(tk)))
+    return out
+
+
 def gen(shape, rnd, depth=0):
+    if isinstance(shape, SeqS) and isinstance(shape.elem, StrS) and rnd.random() < 0.7:
+        return gen_lines(rnd)
+    if isinstance(shape, StrS) and rnd.random() < 0.6:
+        return gen_line(rnd)
     if isinstance(shape, IntS):
         return rnd.choice(POOL_INT) if rnd.random() < 0.8 else rnd.randrange(0, 2000)
     if isinstance(shape, BoolS):
